@@ -14,13 +14,15 @@
 (*                   (always at least (1,1): every key of the full alphabet is exported).             *)
 (* Mode = "slices" : universe export of SliceIndices for the conformance check against CPython.      *)
 EXTENDS Storage, Json
-CONSTANTS Mode, MaxRank, MaxSize, Depth, Budget, LawKeysAll, SliceBound, SliceMaxN
+CONSTANTS Mode, MaxRank, MaxSize, Depth, Budget, KeyLimit, LawKeysAll, SliceBound, SliceMaxN
 VARIABLES g, st, hist, prev, plan
 vars == <<g, st, hist, prev, plan>>
 
 Min(a, b) == IF a < b THEN a ELSE b
-RECURSIVE Pow(_, _)
-Pow(b, e) == IF e = 0 THEN 1 ELSE b * Pow(b, e - 1)
+(* products saturating at Budget + 1 (TLC integers are 32-bit) *)
+SatMul(x, y) == IF x > Budget \div y THEN Budget + 1 ELSE x * y
+RECURSIVE SatPow(_, _)
+SatPow(b, e) == IF e = 0 THEN 1 ELSE SatMul(SatPow(b, e - 1), b)
 
 ---------------------------------------------------------------------------
 (* geometry universe: rank 1..MaxRank, sizes 1..MaxSize with as many DISTINCT sizes as possible (a key *)
@@ -31,7 +33,18 @@ Masks(r)  == {m \in [1..r -> BOOLEAN] : \E k \in 1..r : m[k]}
 Geoms     == UNION {{Geom(s, m) : s \in Shapes(r), m \in Masks(r)} : r \in 1..MaxRank}
 
 RedAlphabet(n)  == {<<-1>>, <<N, N, N>>}
-DumpKeysAll(G)  == AllKeys(G.shape)
+(* The dump-key alphabet.  AllKeys = the full product of the per-axis alphabets (+ both wrong ranks).  In    *)
+(* export mode a product larger than KeyLimit is replaced by the "star": one axis ranges over its whole      *)
+(* alphabet while the others range over the reduced alphabet, plus six all-slice keys (axis k takes slice    *)
+(* number k + j) and both wrong ranks.  The laws are always checked over the full product.                   *)
+ProductSize(sizes) == Prod([k \in DOMAIN sizes |-> 2 * sizes[k] + 8])
+StarKeys(sizes) ==
+         UNION {{[k \in DOMAIN sizes |-> IF k = a THEN c ELSE base[k]] :
+                    c \in CompAlphabet(sizes[a]), base \in Tuples(sizes, RedAlphabet)} : a \in DOMAIN sizes}
+    \cup {[k \in DOMAIN sizes |-> SliceSeq[((k + j) % 6) + 1]] : j \in 0..5}
+    \cup WrongRankKeys(sizes)
+UseStar(G)      == Mode = "export" /\ ProductSize(G.shape) > KeyLimit
+DumpKeysAll(G)  == IF UseStar(G) THEN StarKeys(G.shape) ELSE AllKeys(G.shape)
 ReducedKeys(G)  == Tuples(G.shape, RedAlphabet)
 ValueAt(G, t)   == [shape |-> G.internal, data |-> [j \in 1..Prod(G.internal) |-> 10 * t + j]]
 
@@ -39,7 +52,7 @@ PlanSeq == << <<3, 3>>, <<3, 2>>, <<3, 1>>, <<2, 2>>, <<2, 1>>, <<1, 1>> >>
 PlanOf(G) ==
     LET K == Cardinality(DumpKeysAll(G)) + 1
         R == Cardinality(ReducedKeys(G)) + 1
-        c == SelectSeq(PlanSeq, LAMBDA pl : pl[1] <= Depth /\ Pow(K, pl[2]) * Pow(R, pl[1] - pl[2]) <= Budget)
+        c == SelectSeq(PlanSeq, LAMBDA pl : pl[1] <= Depth /\ SatMul(SatPow(K, pl[2]), SatPow(R, pl[1] - pl[2])) <= Budget)
     IN  IF c = <<>> THEN <<1, 1>> ELSE Head(c)
 
 ---------------------------------------------------------------------------
@@ -110,8 +123,9 @@ InvSliceSound == ~IsS => LET step == IF g.s[3] = N THEN 1 ELSE g.s[3] IN
 ---------------------------------------------------------------------------
 (* export *)
 EmitGeom  == (Mode = "export" /\ hlen = 0) =>
-                 PrintT(<<"GEOM", ToJson([g |-> g, plan |-> plan, gkeys |-> ObsGetKeys(Full(g)),
-                                         nkeys |-> Cardinality(DumpKeysAll(g))])>>)
-EmitSeq   == (Mode = "export" /\ hlen = plan[1]) => PrintT(<<"SEQ", ToJson([g |-> g, ops |-> hist])>>)
+                 PrintT(<<"GEOM", ToJson([g |-> Basic(g), plan |-> plan, gkeys |-> ObsGetKeys(Full(g)),
+                                         nkeys |-> Cardinality(DumpKeysAll(g)),
+                                         star |-> UseStar(g)])>>)
+EmitSeq   == (Mode = "export" /\ hlen = plan[1]) => PrintT(<<"SEQ", ToJson([g |-> Basic(g), ops |-> hist])>>)
 EmitSlice == (Mode = "slices") => PrintT(<<"SLICE", ToJson([s |-> g.s, n |-> g.n, out |-> st])>>)
 =============================================================================
